@@ -171,7 +171,7 @@ def gen_case(rng, rows, defaults, malformed=False):
     # positionals: options first, then jugfile and extra args (the documented command shape)
     pos, after = [], None
     shape = rng.choice(['none', 'jf', 'jf+extra', 'jf+dd', 'jf+extra+dd', 'dd-first'])
-    jf = rng.choice(['jugfile.py', 'my.file.py', 'dir/sub/j.py', 'x.py', 'abc', 'a.b'])
+    jf = rng.choice(['jugfile.py', 'my.file.py', 'dir/sub/j.py', 'x.py', 'abc', 'a.b', 'happy.py', 'study.py', 'p.py', 'copy.p.py', 'spy..py'])
     extras = [rng.choice(WORDS) for _ in range(rng.randint(1, 3))]
     dashed = [rng.choice(WORDS + ['--flag', '-x', '--jugdir', '-', '--verbose=1']) for _ in range(rng.randint(0, 3))]
     if shape == 'jf':
@@ -298,7 +298,7 @@ def check(run):
     # jugdir must be the same whichever subcommand runs
     for i in range(40 if quick else 400):
         tmpl = gen_template(rng, False)
-        jf = rng.choice(['jugfile.py', 'my.file.py', 'dir/j.py'])
+        jf = rng.choice(['jugfile.py', 'my.file.py', 'dir/j.py', 'happy.py', 'study.py', 'p.py'])
         seen = {}
         for sub in sorted(set(r['sub'] for r in rows)):
             extra = ['--target', 'x'] if sub == 'invalidate' else []
@@ -436,7 +436,7 @@ def store_family(run, drv, rng, date, quick):
             continue
         base.append(dict(cli=rng.choice([None, t]), ini=rng.choice([None, t + '.rc']), override=rng.choice([None, None, 'ov%d' % i])))
     for i, b in enumerate(base):
-        jf = ['jugfile.py', 'proj.py', 'dir/j.py'][i % 3]
+        jf = ['jugfile.py', 'proj.py', 'dir/j.py', 'study.py', 'happy.py'][i % 5]
         tmpl = b['cli'] if b['cli'] is not None else (b['ini'] if b['ini'] is not None else '%(jugfile)s.jugdata')
         exp = None
         if drv is not None:
